@@ -95,7 +95,7 @@ def e_step(data, means):
     for i in range(n_clusters):
         first_order_statistics[i] = np.sum(data[closest_k_indices == i], axis=0)
     min_distance = np.min(distances, axis=0)
-    average_min_distance = min_distance.mean()
+    average_min_distance = min_distance.sum()
     return (
         zeroeth_order_statistics,
         first_order_statistics,
